@@ -51,6 +51,11 @@ type vclock struct {
 	gateArmed bool
 	gateHeld  bool
 	gateCh    chan struct{}
+	// hook: when armed, the next NewTimer/Stop call first moves the clock by hookD (inside the
+	// call, i.e. between "the run loop decided to call the clock" and the call's effect).
+	hookArmed bool
+	hookFired bool
+	hookD     int64
 }
 
 func newVClock(legacy bool) *vclock {
@@ -91,6 +96,29 @@ func (c *vclock) maybeGate() {
 	}
 }
 
+func (c *vclock) maybeHook() {
+	// called with c.mu held
+	if c.hookArmed {
+		c.hookArmed = false
+		c.hookFired = true
+		c.advanceLocked(c.hookD)
+	}
+}
+
+func (c *vclock) armHook(d int64) {
+	c.mu.Lock()
+	c.hookArmed, c.hookFired, c.hookD = true, false, d
+	c.mu.Unlock()
+}
+
+// disarmHook reports whether the hook ran.
+func (c *vclock) disarmHook() bool {
+	c.mu.Lock()
+	defer c.mu.Unlock()
+	c.hookArmed = false
+	return c.hookFired
+}
+
 func (c *vclock) armGate() {
 	c.mu.Lock()
 	c.gateArmed = true
@@ -119,9 +147,11 @@ func (c *vclock) NewTimer(d time.Duration) clock.Timer {
 	c.mu.Lock()
 	defer c.mu.Unlock()
 	c.maybeGate()
+	c.maybeHook()
 	t := &vtimer{c: c, ch: make(chan time.Time, 1), active: true, deadline: c.now + int64(d)}
 	c.timers = append(c.timers, t)
 	c.log = append(c.log, logEntry{lkNew, int64(d)})
+	c.advanceLocked(0) // a timer with a non-positive duration expires at once
 	return t
 }
 
@@ -142,6 +172,7 @@ func (t *vtimer) Stop() bool {
 	c.mu.Lock()
 	defer c.mu.Unlock()
 	c.maybeGate()
+	c.maybeHook()
 	t.falseStp = false
 	switch {
 	case t.active:
@@ -184,6 +215,7 @@ func (t *vtimer) Reset(d time.Duration) bool {
 	t.active, t.fired, t.pending = true, false, false
 	t.deadline = c.now + int64(d)
 	c.log = append(c.log, logEntry{lkReset, int64(d)})
+	c.advanceLocked(0) // a non-positive duration expires at once
 	return was
 }
 
@@ -191,6 +223,10 @@ func (t *vtimer) Reset(d time.Duration) bool {
 func (c *vclock) Advance(d int64) int {
 	c.mu.Lock()
 	defer c.mu.Unlock()
+	return c.advanceLocked(d)
+}
+
+func (c *vclock) advanceLocked(d int64) int {
 	c.now += d
 	n := 0
 	for _, t := range c.timers {
